@@ -384,6 +384,7 @@ func init() {
 				c.StoreCommit("C03", sl) // what the batch path records is what a one-at-a-time history records
 			}
 			c.SignerRefusalReasons("C09")
+			c.BatchIdentifiers("C08")
 			c.LockerInternals("C15") // a batch of distinct keys returns its verdicts only if distinct keys have distinct mutexes
 			c.ScatterPartition("C09")
 			c.RulerPositions("C09")
